@@ -77,7 +77,7 @@ def runHistOp (allowRef : Bool) (ws : List String) : String :=
 casehasprefix s p | tokenr s sep
 (group 2): stripansi <flag> h
 (group 3): readlines h | strhash h | strhashbits h | stripnb5 h | dbcsnext <c> <prev> | dbcsstatus <pos> h |
-dbcstrim h | trim h | trimdbcs h | subjectex h | startswith str prefix | movecmd h
+dbcstrim h | trim h | trimdbcs h | subjectex h | startswith str prefix | movecmd h | callin h
 (ownership): hist <step>... | conc <step>... (steps: see `parseStep`) -/
 def stepC18 (_ : Unit) (ws : List String) : Unit × String :=
   let out := match ws with
@@ -138,6 +138,9 @@ def stepC18 (_ : Unit) (ws : List String) : Unit × String :=
     | ["subjectex", h] => match parseHex h with
         | some s => if s.length = TTLEN + 1 then
             showM (fun (p : Nat × List Nat) => toString p.1 ++ " " ++ toHex p.2) (subjectEx s) else "bad-op"
+        | none => "bad-op"
+    | ["callin", h] => match parseHex h with
+        | some s => showM toHex (lastCallIn s)
         | none => "bad-op"
     | ["movecmd", h] => match parseHex h with
         | some s => showM toHex (stripANSIMoveCmd s)
